@@ -1459,6 +1459,12 @@ class Interp:
             return Opaque(f"{base[1]}[]")
         if isinstance(base, sp.Basic) and isinstance(base, sp.IndexedBase):
             return base[idx]
+        if isinstance(base, ClassRef) and isinstance(idx, str):
+            # Enum lookup by member name: SynodicState["X"]
+            hit = ri.class_member(base.mod, base.node, idx)
+            if hit is not None and isinstance(hit[2], (ast.Assign, ast.AnnAssign)):
+                return self.getattr(base, idx)
+            raise KpeRaise(f"KeyError: {idx!r} is not a member of {base.node.name}")
         raise OutsideFragment(f"subscript of {type(base).__name__}")
 
     def e_Attribute(self, node, env):
@@ -1582,6 +1588,18 @@ class Interp:
                         return fr
                     if isinstance(nd, (ast.Assign, ast.AnnAssign)):
                         return self.eval(nd.value, Env(m))
+                # the class's own __getattr__ fallback (delegating wrappers); an AttributeError it raises is "unknown"
+                if not (attr.startswith("__") and attr.endswith("__")):
+                    ga = ri.class_member(base.cls.mod, base.cls.node, "__getattr__")
+                    busy = self.__dict__.setdefault("_getattr_busy", set())
+                    if ga is not None and isinstance(ga[2], ast.FunctionDef) and (id(base), attr) not in busy:
+                        busy.add((id(base), attr))
+                        try:
+                            return self.apply(FuncRef(ga[0], ga[2], bound_self=base, qual=f"{ga[1].name}.__getattr__", owner=(ga[0], ga[1])), [attr], {})
+                        except KpeRaise:
+                            pass
+                        finally:
+                            busy.discard((id(base), attr))
             raise OutsideFragment(f"attribute {attr} of {base!r} unknown")
         if isinstance(base, ClassRef):
             hit = ri.class_member(base.mod, base.node, attr)
@@ -1597,6 +1615,8 @@ class Interp:
         if isinstance(base, Opaque):
             return Opaque(base.name + "." + attr)
         if isinstance(base, (list, tuple, dict, str, set)):
+            if not hasattr(type(base), attr) and not (isinstance(base, tuple) and base and isinstance(base[0], str) and base[0] in ("np", "builtin", "math", "method", "override")):
+                raise OutsideFragment(f"attribute {attr} of {type(base).__name__} unknown")
             return ("method", base, attr)
         if isinstance(base, sp.Basic) or isinstance(base, (int, Fraction)):
             if attr == "real":
